@@ -811,6 +811,10 @@ pub fn check_case(ctx: &Ctx, case: &Case, rep: &mut Report, tag: &str, focus: Fo
         if focus.ddl_only && !(in_unit && cur_unit_ddl) {
             continue;
         }
+        if case.class == "bigtxn" && case.k.is_none() && !ctx.thorough && ev.kind == "page_mut" && k % 12 != 0 {
+            rep.count("crashpoint:bigtxn-page_mut-sampled-out");
+            continue;
+        }
         for model in &models {
             let snap = if *model == "kill" { ev.kill } else { ev.power };
             if !seen.insert((snap, acked, inflight, in_unit)) {
@@ -938,6 +942,8 @@ struct Gen<'a> {
     next_id: i64,
     live: Vec<i64>,
     big: bool,
+    /// rows of 850..950 text bytes (just below the TOAST threshold): ~17 rows per leaf page
+    med: bool,
     table: &'static str,
 }
 
@@ -947,7 +953,7 @@ impl<'a> Gen<'a> {
         self.next_id += 1;
         self.live.push(id);
         let a = self.rng.range(0, 9);
-        let b = txt(self.rng, self.big);
+        let b = if self.med { let n = 850 + self.rng.below(100) as usize; (0..n).map(|_| (b'a' + self.rng.below(26) as u8) as char).collect() } else { txt(self.rng, self.big) };
         (format!("({id}, {a}, '{b}')"), format!("((int {id}) (int {a}) (text {}))", hex(b.as_bytes())))
     }
     fn stmt(&mut self) -> (String, String) {
@@ -990,8 +996,8 @@ impl<'a> Gen<'a> {
     }
 }
 
-pub const CLASSES: &[&str] = &["dml-noidx", "dml-pk", "dml-idx", "txn", "big", "ddl", "ckpt"];
-pub const CLASSES_C01: &[&str] = &["dml-noidx", "dml-pk", "dml-idx", "txn", "big", "ddl", "ckpt", "ddl-heavy"];
+pub const CLASSES: &[&str] = &["dml-noidx", "bigtxn", "dml-pk", "dml-idx", "txn", "big", "ddl", "ckpt"];
+pub const CLASSES_C01: &[&str] = &["dml-noidx", "bigtxn", "dml-pk", "dml-idx", "txn", "big", "ddl", "ckpt", "ddl-heavy"];
 pub const CLASSES_C40: &[&str] = &["ddl", "ddl-heavy"];
 
 /// DDL-heavy workload: tables t0..t3 created / indexed / dropped in between inserts (C40 crash clause)
@@ -1062,7 +1068,7 @@ pub fn gen_case(rng: &mut Rng, class: &str, nstmts: usize) -> Case {
         setup.push("CREATE INDEX t_a ON t (a)".to_string());
         universe[0].probes = vec![0, 1];
     }
-    let mut g = Gen { insert_only: class == "dml-idx", rng, next_id: 1, live: vec![], big: class == "big", table: "t" };
+    let mut g = Gen { insert_only: class == "dml-idx", rng, next_id: 1, live: vec![], big: class == "big", med: false, table: "t" };
     let n0 = if class == "big" { 3 } else { g.rng.range(0, 12) as usize };
     let mut sx_rows = vec![];
     for _ in 0..n0 {
@@ -1073,6 +1079,32 @@ pub fn gen_case(rng: &mut Rng, class: &str, nstmts: usize) -> Case {
     sx_setup.extend(sx_rows);
     let mut work = vec![];
     let mut sx = vec![];
+    if class == "bigtxn" {
+        // one transaction that dirties more than COMMIT_BATCH_SIZE (16) pages, so that COMMIT takes the
+        // chunked WAL path (execute_chunked_wal_commit), between small autocommit statements that have
+        // already logged frames for the same root/leaf pages
+        let (s, x) = g.stmt();
+        work.push(s);
+        sx.push(x);
+        work.push("BEGIN".to_string());
+        sx.push("(begin)".to_string());
+        g.med = true;
+        let nins = 10 + g.rng.below(3);
+        for _ in 0..nins {
+            let rows: Vec<(String, String)> = (0..32).map(|_| g.row()).collect();
+            work.push(format!("INSERT INTO t VALUES {}", rows.iter().map(|r| r.0.clone()).collect::<Vec<_>>().join(", ")));
+            sx.push(format!("(insert t (0 1 2) ({}))", rows.iter().map(|r| r.1.clone()).collect::<Vec<_>>().join(" ")));
+        }
+        g.med = false;
+        work.push("COMMIT".to_string());
+        sx.push("(commit)".to_string());
+        for _ in 0..2 {
+            let (s, x) = g.stmt();
+            work.push(s);
+            sx.push(x);
+        }
+        return Case { model: "both".into(), class: class.to_string(), k: None, universe, setup, work, sx, sx_setup };
+    }
     let mut made_u = false;
     let mut made_ix = false;
     while work.len() < nstmts {
@@ -1230,7 +1262,7 @@ pub fn run(ctx: &Ctx) -> Report {
 pub fn run_c01(ctx: &Ctx) -> Report {
     let mut rep = Report::new(
         "crash",
-        "one case = (workload, crash model, crash point). Workloads: DDL/DML/COMMIT with WAL on + synchronous=FULL; crash \
+        "one case = (workload, crash model, crash point). Workloads: DDL/DML/COMMIT with WAL on + synchronous=FULL (classes incl. bigtxn: one transaction dirtying > COMMIT_BATCH_SIZE pages so that COMMIT takes the chunked WAL path; its page_mut crash points are sampled 1 in 12 in the quick tier); crash \
          points: every I/O event of the engine (page mutation, grow, msync, WAL frame/flush/fdatasync/truncate/rotate, catalog and \
          meta write steps, file create/remove) plus the instants just after each acknowledgement; models: kill (OS view of the \
          files) and power (per-file last-synced content). Oracle: reopened state == acked prefix, or acked prefix + whole in-flight \
